@@ -122,6 +122,20 @@ class CallScenario(explore.Scenario):
         w.used = set()
         w.lost = False
         w.bus_serial = 1000
+        w.late = None
+        if self.params.get('loss_call'):
+            # the application has a disconnect callback that makes one more
+            # call (with a deadline) when it runs: that call is outstanding
+            # when the loss is processed, like the others
+            w.late = []
+
+            def on_loss(c, reason, late=w.late):
+                d = c.callRemote('/o', 'Bye', interface='a.b',
+                                 destination='c.d', timeout=3)
+                d.addCallbacks(
+                    lambda v: late.append(('ok', v)),
+                    lambda f: late.append(('err', type(f.value).__name__)))
+            w.cw.conn.notifyOnDisconnect(on_loss)
         return w
 
     def close(self, w):
@@ -311,6 +325,12 @@ class CallScenario(explore.Scenario):
                     '%s/premature/%s' % (PROP, ev[0]),
                     'after %r call %d is still outstanding but its Deferred '
                     'fired with %r' % (ev, i, got)))
+        if w.lost and w.late is not None and \
+                w.late != [('err', 'ConnectionDone')] and ev[0] == 'lose':
+            viol.append(('%s/loss-callback-call' % PROP,
+                         'a call issued by a disconnect callback while the '
+                         'loss was being processed ended as %r, expected one '
+                         'failure with the loss reason' % (w.late,)))
         armed = len([c for c in w.cw.clock.getDelayedCalls() if c.active()])
         want = len([i for i in range(w.n) if w.status[i] == 'pending'
                     and w.deadline_at[i] is not None])
@@ -394,6 +414,10 @@ def run(ctx):
                             label=n)
         explore.explore(ctx, CallScenario, {'config': 'four'}, max_depth=9,
                         label='four (depth 9)', max_states=400000)
+    for n in ('plain2', 'deadlines2'):
+        explore.explore(ctx, CallScenario, {'config': n, 'loss_call': True},
+                        max_depth=12, label=n + ' + a call from a '
+                        'disconnect callback')
     ctx.map(_task_resend, [0])
     ctx.bounds = {'configs': list(ctx.parts)}
 
